@@ -135,6 +135,9 @@ func c09Exec(scenario string, prefix []int) c09Result {
 	cfg := RCfg{Name: "svc.example.com", Listens: []RListen{
 		{Addr: "127.0.0.1", UDP: 5060, TCP: 5062, Backends: []string{be1, "tcp://127.0.1.2:7000"}},
 		{Addr: "127.0.0.2", UDP: 5060, TCP: 5062, Backends: []string{"udp://127.0.1.3:7000", "tcp://127.0.1.4:7000"}}}}
+	if scenario == "static-routes" {
+		cfg.Routes = []RRoute{{Dests: []string{"*.wild.example.org"}, Protocol: "udp", NextHop: "127.0.0.31:7100"}, {Dests: []string{"exact.example.org"}, Protocol: "udp", NextHop: "127.0.0.32:7100"}}
+	}
 	if scenario == "shrink-first" {
 		// only the host-name backend: its first address is at position 0 of the rotation
 		cfg.Listens[0].Backends = []string{be1}
@@ -194,6 +197,16 @@ func c09Exec(scenario string, prefix []int) c09Result {
 		uaC.Send("127.0.0.1:5060", c09Req("C", "UDP", "127.0.0.7:5060", ""))
 		uaA.Send("127.0.0.1:5060", c09Req("D", "UDP", "127.0.0.9:5060", ""))
 	}
+	if scenario == "static-routes" {
+		// requests on both listeners whose To host is decided by the (shared) static route table
+		st := func(id, src, host string) []byte {
+			return MsgSpec{Method: "OPTIONS", RURI: "sip:x@foreign.example.net", Vias: []string{"SIP/2.0/UDP " + src + ";branch=z9hG4bK" + id}, From: "<sip:" + id + "@ua.example.net>;tag=f", To: "<sip:x@" + host + ">",
+				CallID: "c09-" + id, CSeq: "1 OPTIONS"}.Build().Render()
+		}
+		uaA.Send("127.0.0.1:5060", st("D", "127.0.0.9:5060", "a.wild.example.org"))
+		uaC.Send("127.0.0.2:5060", st("C", "127.0.0.7:5060", "b.wild.example.org"))
+		uaA.Send("127.0.0.1:5060", st("E", "127.0.0.9:5060", "exact.example.org"))
+	}
 	if scenario == "named-hops" {
 		// requests routed to next hops given by host name: both loops resolve names while relaying
 		uaA.Send("127.0.0.1:5060", c09Req("D", "UDP", "127.0.0.9:5060", "<sip:nh1.example.net:7100;lr>"))
@@ -230,7 +243,7 @@ func c09Exec(scenario string, prefix []int) c09Result {
 		if p.Proto == "dial" {
 			continue
 		}
-		for _, id := range []string{"A", "B", "C", "D"} {
+		for _, id := range []string{"A", "B", "C", "D", "E"} {
 			if bytes.Contains(p.Data, []byte("Call-ID: c09-"+id+"\r\n")) {
 				if bytes.HasPrefix(p.Data, []byte("SIP/2.0")) {
 					respTo[id] = append(respTo[id], fmt.Sprintf("%s>%s#%d", p.Proto, p.To, p.Conn))
@@ -252,6 +265,10 @@ func c09Exec(scenario string, prefix []int) c09Result {
 	if scenario == "named-hops" {
 		own["C"], own["D"] = []string{"127.0.0.32:7100"}, []string{"127.0.0.31:7100"}
 		ids = append(ids, "C", "D")
+	}
+	if scenario == "static-routes" {
+		own["C"], own["D"], own["E"] = []string{"127.0.0.31:7100"}, []string{"127.0.0.31:7100"}, []string{"127.0.0.32:7100"}
+		ids = append(ids, "C", "D", "E")
 	}
 	churn := scenario == "tcp-backend-churn" || scenario == "shrink" || scenario == "shrink-first"
 	var oc []string
@@ -281,8 +298,8 @@ func c09Exec(scenario string, prefix []int) c09Result {
 			return res
 		}
 		oc = append(oc, id+":"+to[0])
-		if scenario == "named-hops" && (id == "C" || id == "D") {
-			continue // the named next hops are sinks
+		if (scenario == "named-hops" && (id == "C" || id == "D")) || (scenario == "static-routes" && (id == "C" || id == "D" || id == "E")) {
+			continue // the next hops are sinks
 		}
 		// the response returns to the sender
 		want := map[string]string{"A": "udp>127.0.0.9:5060", "C": "udp>127.0.0.7:5060", "D": "udp>127.0.0.9:5060"}[id]
@@ -336,9 +353,9 @@ func c09RaceRun(c *Ctx) {
 		scenario string
 		bound    int
 	}
-	plans := []plan{{"two-clients", 2}, {"tcp-backend-churn", 1}, {"shrink", 1}, {"shrink-first", 1}, {"named-hops", 1}, {"connections-lost", 1}}
+	plans := []plan{{"two-clients", 2}, {"tcp-backend-churn", 1}, {"shrink", 1}, {"shrink-first", 1}, {"named-hops", 1}, {"static-routes", 2}, {"connections-lost", 1}}
 	if c.Thorough() {
-		plans = []plan{{"two-clients", 3}, {"three-clients", 3}, {"tcp-backend-churn", 2}, {"shrink", 2}, {"shrink-first", 2}, {"named-hops", 2}, {"connections-lost", 2}}
+		plans = []plan{{"two-clients", 3}, {"three-clients", 3}, {"tcp-backend-churn", 2}, {"shrink", 2}, {"shrink-first", 2}, {"named-hops", 2}, {"static-routes", 2}, {"connections-lost", 2}}
 	}
 	if v := os_Getenv("VERIF_C09_BOUND"); v != "" {
 		var b int
@@ -383,7 +400,7 @@ var _ = net.IPv4zero
 
 func init() {
 	addCheck(&Check{ID: "C09", Level: "model_checking", Race: true,
-		Rule:    "stateless depth-first search over schedules with deviation bounding (every non-default choice of the next goroutine or the firing select case costs one deviation) of the REAL proxy built with -race: two listens entries of one service (each UDP+TCP listener, each with its own UDP and TCP backend; one backend by host name), a UDP client on listener 1 and a TCP client on listener 2 (thorough: plus a UDP client on listener 2 announcing the same Via host), reactive backend doubles answering every request, and a membership change (remove + add) through the real resolver callback path, all injected without waiting, after a set-up that includes a CRLF keep-alive and a non-SIP datagram on the UDP listeners; scenarios two-clients (<=2 deviations, thorough <=3), three-clients (thorough <=2), tcp-backend-churn (host-name TCP backend connected, removed and replaced while three requests are dispatched; <=1, thorough <=2), shrink / shrink-first (a host name resolving to two of listener 1's three backends loses its second / its first address while three requests walk the rotation, followed by a stable period in which the vanished address must receive nothing; <=1, thorough <=2), named-hops (requests on both listeners carry Route headers naming next hops by host name, resolved through the simulated DNS, while the membership changes; <=1, thorough <=2), connections-lost (both TCP backend connections of listener 1 were closed by their peers; two requests that have to re-connect and a TCP client on listener 2 arrive at once; <=1, thorough <=2); every execution is checked by the oracle on the packet log AND by the Go race detector, whose hand-off-blind view is obtained by a norace spin scheduler; states = executions, transitions = choice points visited; non-trivial = execution with at least one deviation",
+		Rule:    "stateless depth-first search over schedules with deviation bounding (every non-default choice of the next goroutine or the firing select case costs one deviation) of the REAL proxy built with -race: two listens entries of one service (each UDP+TCP listener, each with its own UDP and TCP backend; one backend by host name), a UDP client on listener 1 and a TCP client on listener 2 (thorough: plus a UDP client on listener 2 announcing the same Via host), reactive backend doubles answering every request, and a membership change (remove + add) through the real resolver callback path, all injected without waiting, after a set-up that includes a CRLF keep-alive and a non-SIP datagram on the UDP listeners; scenarios two-clients (<=2 deviations, thorough <=3), three-clients (thorough <=2), tcp-backend-churn (host-name TCP backend connected, removed and replaced while three requests are dispatched; <=1, thorough <=2), shrink / shrink-first (a host name resolving to two of listener 1's three backends loses its second / its first address while three requests walk the rotation, followed by a stable period in which the vanished address must receive nothing; <=1, thorough <=2), named-hops (requests on both listeners carry Route headers naming next hops by host name, resolved through the simulated DNS, while the membership changes; <=1, thorough <=2), static-routes (requests on both listeners are routed by the shared static route table - wildcard and exact entries - at the same time; <=2), connections-lost (both TCP backend connections of listener 1 were closed by their peers; two requests that have to re-connect and a TCP client on listener 2 arrive at once; <=1, thorough <=2); every execution is checked by the oracle on the packet log AND by the Go race detector, whose hand-off-blind view is obtained by a norace spin scheduler; states = executions, transitions = choice points visited; non-trivial = execution with at least one deviation",
 		Assume:  []string{"scheduling points are synchronisation operations, select, socket reads; unsynchronised accesses are reported by the race detector on every explored execution", "socket operations carry exactly the happens-before edges the Go runtime gives them on unix (per-descriptor ordering; global ioSync word for stream read/write; none for datagrams)", "a request whose chosen backend is removed concurrently may be lost (the statement's 'registered at that moment')"},
 		Run:     func(c *Ctx) {},
 		RaceRun: c09RaceRun,
